@@ -996,15 +996,6 @@ Qed.
 (* rollback (abort, dropping the writer) restores the last committed state: committing right after it
    publishes exactly what was published before *)
 Definition is_restore (u : uop) : Prop := u = Rollback \/ u = Abort \/ u = Reopen.
-Theorem rollback_restores f1 nw h u payload sc sc' : (0 < nw)%nat -> is_restore u ->
-  F2_class f1 (h ++ [u; Commit payload]) = false -> F2_class f1 h = false ->
-  Permutation (published (fst (run f1 nw (h ++ [u; Commit payload]) sc))) (published (fst (run f1 nw h sc'))).
-Proof.
-  intros Hnw Hu Hf Hf'. eapply Permutation_trans; [apply commit_is_replay; eassumption|].
-  eapply Permutation_trans; [|apply Permutation_sym, commit_is_replay; eassumption].
-  rewrite replay_app. unfold replay_from. cbn [fold_left]. destruct Hu as [->|[->| ->]]; apply Permutation_refl.
-Qed.
-
 Lemma f2_scan_prefix f1 h1 : forall dirty h2, f2_scan f1 dirty (h1 ++ h2) = false -> f2_scan f1 dirty h1 = false.
 Proof.
   induction h1 as [|u h1 IH]; intros dirty h2 H; cbn [app f2_scan] in *; [reflexivity|].
@@ -1012,6 +1003,16 @@ Proof.
 Qed.
 Lemma F2_class_prefix f1 h1 h2 : F2_class f1 (h1 ++ h2) = false -> F2_class f1 h1 = false.
 Proof. apply f2_scan_prefix. Qed.
+Theorem rollback_restores f1 nw h u payload sc sc' : (0 < nw)%nat -> is_restore u ->
+  F2_class f1 (h ++ [u; Commit payload]) = false ->
+  Permutation (published (fst (run f1 nw (h ++ [u; Commit payload]) sc))) (published (fst (run f1 nw h sc'))).
+Proof.
+  intros Hnw Hu Hf. pose proof (F2_class_prefix _ _ _ Hf) as Hf'.
+  eapply Permutation_trans; [apply commit_is_replay; eassumption|].
+  eapply Permutation_trans; [|apply Permutation_sym, commit_is_replay; eassumption].
+  rewrite replay_app. unfold replay_from. cbn [fold_left]. destruct Hu as [->|[->| ->]]; apply Permutation_refl.
+Qed.
+
 (* the registers after rollback / abort / re-open are those loaded from meta.json *)
 Lemma restore_is_new_writer f1 st u s : is_restore u ->
   exists st1, fst (wstep f1 st u s) = new_writer (nworkers st1) (meta st1) /\ snd (wstep f1 st u s) = m_opstamp (meta st1).
